@@ -450,6 +450,13 @@ class BaseOdeModel(object):
         else:
             raise InputError("Expecting a list")
 
+        # functions compiled from now on take the new parameters as arguments, so
+        # the symbol list and the value list have to grow with the parameter list
+        self.set_sp()
+        if self._paramValue is not None and len(self._paramValue) < len(self._paramList):
+            self._paramValue = list(self._paramValue) + \
+                [0]*(len(self._paramList) - len(self._paramValue))
+
         self._hasNewTransition.trip()
 
     @property
